@@ -86,10 +86,11 @@ def build_fake_harness(ctx, bufsz, real):
     return ctx.cc("h_c15_%d%s" % (bufsz, "r" if real else ""), ["h_c15.c"] + srcs, flags=["-DH_BUFSZ=%d" % bufsz])
 
 
-def run_lines(ctx, exe, lines, timeout=900):
-    """run a line-protocol harness; a hang or abort on one line is a result for that line (confirmed by running that
-    line alone with a long timeout, so that a loaded machine is not mistaken for a hang), the rest is re-run.
-    returns list of outputs ('HANG' / 'ABORT rc ...' for the offending lines)"""
+def run_lines(ctx, exe, lines, timeout=1800):
+    """run a line-protocol harness.  The harnesses arm a CPU-time watchdog per scenario: code under test that spins makes
+    the harness finish the line with 'HANG' and exit 3 (independent of machine load).  A wall-clock timeout or an abort on
+    one line is confirmed by running that line alone; the rest is re-run.  Returns one output per line
+    ('... HANG' / 'ABORT rc ...' for offending lines)."""
     def once(ls, to):
         text = "\n".join(ls) + "\n"
         try:
@@ -108,11 +109,17 @@ def run_lines(ctx, exe, lines, timeout=900):
         if rc == 0 and len(got) == want:
             out += got
             break
+        if rc == 3 and got and got[-1].endswith("HANG"):
+            out += [g.strip() for g in got]          # the watchdog fired on the last line printed
+            start += len(got)
+            continue
         k = min(len(got), want - 1)
         out += got[:k]
-        g1, rc1, err1 = once([lines[start + k]], 180)
+        g1, rc1, err1 = once([lines[start + k]], 600)
         if rc1 == 0 and len(g1) == 1:
             out.append(g1[0])
+        elif rc1 == 3 and g1 and g1[-1].endswith("HANG"):
+            out.append(g1[-1].strip())
         else:
             e = (err1 or err).strip().splitlines()
             out.append("HANG" if rc1 == "timeout" else "ABORT rc=%s %s" % (rc1, e[0][:200] if e else ""))
@@ -253,7 +260,7 @@ def big_scenarios(ctx, bufsz):
 def spec_verdict(s, impl):
     """evaluate the property's specification on the implementation's answer; returns list of violated clauses"""
     bad = []
-    if impl == "HANG":
+    if impl.endswith("HANG"):
         return ["terminates"]
     if impl.startswith("ABORT"):
         return ["no-abort"]
@@ -355,6 +362,184 @@ def fake_codec_part(ctx):
                               "model of %s_xfrm no longer matches the code (impl=%s model=%s); no clause of the specification fails on this input" % (
                                   s["kind"], i[:120], m[:120]), rep, found_input=False)
     return stats, samples, real_b
+
+
+# ------------------------------------------------------------------------------------------------ wrappers (a')
+def build_wrap_harness(ctx):
+    srcs = ["h_c15w.c", "c15_fakelib.c"] + ["lib/xfrm/src/%s.c" % n for n in ("gzip", "xz", "bzip2", "zstd", "compress")]
+    return ctx.cc("h_c15w", srcs, flags=["-include", str(vlib.HARNESS / "c15_fakelib.h")])
+
+
+def gen_wrap_scenarios(ctx, n_random):
+    """call sequences for the process_data loops over the fake libraries; `family` scenarios follow the calling pattern of
+    ostream_xfrm / istream_xfrm closely enough for the specification monitor to apply"""
+    rng = ctx.rng
+    sc = []
+
+    def line(be, d, a, g, t, calls):
+        return "wrap new %s %s %d %d %d %s" % (be, d, a, g, t, " ".join("%d:%d:%s" % (m, r, tok(x)) for m, r, x in calls))
+
+    for be in CODECS:
+        # encoders: one FULL call with all the data, then FULL calls without input (flush_inbuf(finish))
+        for n in range(0, 4):
+            data = bytes([0x41 + i for i in range(n)])
+            for room in (1, 2, 5, 64):
+                for (a, g, t) in ((9, 0, 9), (9, 9, 9), (0, 0, 0), (1, 1, 0)):
+                    calls = [(2, room, data)] + [(2, room, b"")] * (2 * n + 4)
+                    sc.append({"line": line(be, "c", a, g, t, calls), "family": "flush", "backend": be, "dir": "c", "data": data,
+                               "full_intake": a >= n})
+        # decoders: one member in chunks (consumed completely by a codec with large intake), then FULL calls without input
+        for m in (b"", b"A", b"AB", b"ABCde"):
+            stream = toy_encode(m)
+            variants = [("valid", stream, m)]
+            for cut in range(1, len(stream)):
+                variants.append(("truncated", stream[:cut], b""))
+            for pos in range(0, len(stream), 2):
+                variants.append(("damaged", stream[:pos] + b"\x07" + stream[pos + 1:], b""))
+            for cls, st, cont in variants:
+                for k in (1, 2, 64):
+                    chunks = [st[i:i + k] for i in range(0, len(st), k)]
+                    for (a, g, t) in ((70, 70, 70), (70, 0, 70)):
+                        calls = [(0, 64, c) for c in chunks] + [(2, 64, b"")] * 4
+                        sc.append({"line": line(be, "d", a, g, t, calls), "family": "eof", "backend": be, "dir": "d", "class": cls,
+                                   "content": cont, "nchunks": len(chunks)})
+    for _ in range(n_random):
+        be = rng.choice(CODECS); d = rng.choice("cd")
+        a, g, t = (rng.choice([0, 0, 1, 2, 5, 70]) for _ in range(3))
+        calls = []
+        if d == "c":
+            data = bytes(rng.randrange(256) for _ in range(rng.randint(0, 12)))
+            pos = 0
+            while pos < len(data) and rng.random() < 0.6:
+                k = rng.randint(1, len(data) - pos)
+                calls.append((rng.choice([0, 0, 0, 1]), rng.choice([0, 1, 2, 3, 8, 40]), data[pos:pos + k])); pos += rng.randint(0, k)
+            rest = data[pos:]
+            for _ in range(rng.randint(1, 8)):
+                calls.append((2, rng.choice([1, 2, 3, 8, 40]), rest)); rest = b"" if rng.random() < 0.9 else rest
+        else:
+            ms = [bytes(rng.randrange(256) for _ in range(rng.randint(0, 5))) for _ in range(rng.randint(0, 3))]
+            st = b"".join(toy_encode(m) for m in ms)
+            r = rng.random()
+            if r < 0.3 and len(st) > 1:
+                st = st[:rng.randint(1, len(st) - 1)]
+            elif r < 0.4:
+                st += bytes([rng.choice([0, 1, 2, 7])])
+            pos = 0
+            while pos < len(st) and rng.random() < 0.85:
+                k = rng.randint(1, min(6, len(st) - pos))
+                calls.append((rng.choice([0, 0, 0, 2]), rng.choice([0, 1, 2, 3, 8, 40]), st[pos:pos + k])); pos += k
+            for _ in range(rng.randint(1, 4)):
+                calls.append((2, rng.choice([1, 2, 8, 40]), b""))
+        sc.append({"line": line(be, d, a, g, t, calls), "family": "random", "backend": be, "dir": d})
+    return sc
+
+
+def same_trace(impl, model):
+    """traces agree; a model trace ending in `hang` (the loop never leaves) corresponds to the watchdog's `HANG`"""
+    if impl == model:
+        return True
+    if impl.endswith("HANG") and model.endswith("hang"):
+        return impl[:-4].split() == model[:-4].split()
+    return False
+
+
+def wrap_spec_verdict(s, impl):
+    """the contract clauses that can be read off a trace of process_data calls, on the implementation's answers.
+    returns (violated clauses, known-finding style key or None)"""
+    be = s["backend"]
+    if impl.endswith("HANG"):
+        if be == "gzip" and s.get("dir") == "d":
+            return ["terminates"], "gzip:data-error-hang"
+        return ["terminates"], "wrapper-hang:%s:%s" % (be, s["family"])
+    if impl.startswith("ABORT"):
+        return ["no-abort"], "wrapper-abort:%s" % be
+    calls = [c.split(",") for c in impl.split()]
+    if any(len(c) != 3 for c in calls):
+        return ["protocol"], "wrapper-protocol:%s" % be
+    rets = [int(c[0]) for c in calls]
+    outs = [untok(c[2]) for c in calls]
+    if s["family"] == "flush" and s["full_intake"]:
+        # FLUSH_FULL must be continued until END, and what was produced up to END is the member
+        if 1 not in rets:
+            return ["FLUSH_FULL-eventually-END"], ("flush-hang:%s" % be if be != "zstd" else "flush-never-end:zstd")
+        k = rets.index(1)
+        if -1 in rets[:k + 1]:
+            return ["encoder-never-fails"], "encoder-error:%s" % be
+        got = b"".join(outs[:k + 1])
+        if s["data"] and toy_decode_all(got) != s["data"]:
+            return ["decode(written)=input"], ("flush-early-end:%s" % be if be == "zstd" else "encoder-output:%s" % be)
+    if s["family"] == "eof":
+        n = s["nchunks"]
+        got = b"".join(o for r, o in zip(rets, outs) if r != -1)
+        if s["class"] == "valid":
+            if -1 in rets:
+                return ["no-error-on-valid-input"], "decoder-error:%s" % be
+            if got != s["content"]:
+                if s["content"].startswith(got):
+                    return ["decode=content"], "pending-output-lost:%s" % be
+                return ["decode=content"], "decoder-output:%s" % be
+        elif s["class"] == "truncated":
+            if -1 not in rets[n:]:
+                return ["truncated-is-error"], "truncated-accepted:%s" % be
+        elif s["class"] == "damaged":
+            if -1 not in rets:
+                return ["damaged-is-error"], "corrupt-accepted:%s" % be
+    return [], None
+
+
+def wrapper_part(ctx):
+    exe = build_wrap_harness(ctx)
+    scs = gen_wrap_scenarios(ctx, 3000 if ctx.quick() else 60000)
+    corpus = vlib.CORPUS / "C15"
+    if corpus.exists():
+        for p in sorted(corpus.glob("wrap_*.txt")):
+            for l in p.read_text().splitlines():
+                if l.strip() and not l.startswith("#"):
+                    scs.insert(0, {"line": l.strip(), "family": "corpus", "backend": l.split()[2], "dir": l.split()[3]})
+    lines = [s["line"] for s in scs]
+    model = ctx.driver(["c15"], "\n".join(lines) + "\n")
+    old_model = ctx.driver(["c15"], "\n".join(l.replace("wrap new ", "wrap old ", 1) for l in lines) + "\n")
+    stats = {"scenarios": 0, "families": {}, "disagreements": 0, "spec_failures": 0, "unpatched_behaviour": 0,
+             "skipped_after_confirmed_hang": 0}
+    # sequences on which the unpatched loops spin (by the model of the unpatched code): probe a few first, and if the
+    # working tree does spin there, do not pay a watchdog period for every further one
+    predicted = [k for k in range(len(lines)) if old_model[k].endswith("hang") and not model[k].endswith("hang")]
+    probe = predicted[:3]
+    probe_out = run_lines(ctx, exe, [lines[k] for k in probe]) if probe else []
+    spins = any(o.endswith("HANG") for o in probe_out)
+    skip = set(predicted[3:]) if spins else set()
+    stats["skipped_after_confirmed_hang"] = len(skip)
+    todo = [k for k in range(len(lines)) if k not in skip and k not in probe]
+    rest_out = run_lines(ctx, exe, [lines[k] for k in todo])
+    impl = {k: o for k, o in zip(probe, probe_out)}
+    impl.update({k: o for k, o in zip(todo, rest_out)})
+    reported = 0
+    for k in sorted(impl):
+        s, i, m, om = scs[k], impl[k], model[k], old_model[k]
+        stats["scenarios"] += 1
+        stats["families"][s["family"]] = stats["families"].get(s["family"], 0) + 1
+        if same_trace(i, m):
+            continue
+        stats["disagreements"] += 1
+        bad, key = wrap_spec_verdict(s, i)
+        as_old = same_trace(i, om)
+        if as_old:
+            stats["unpatched_behaviour"] += 1
+        rep = {"harness": "h_c15w (real process_data loops over the fake libraries)", "wrap_line": s["line"], "impl": i[:2000], "model": m[:2000],
+               "model_of_unpatched_loops": om[:2000], "matches_unpatched_model": as_old}
+        if bad:
+            stats["spec_failures"] += 1
+            ctx.violation(key, "process_data of %s over the fake library violates %s (impl: %s)" % (s["backend"], bad, i[:150]), rep)
+        elif as_old:
+            # the working tree has the unpatched loop, whose model (Sqfs/Model/XfrmOld.lean) predicts exactly this trace, and no
+            # clause of the contract is violated on it (e.g. a FLUSH_FULL call on an idle stream object): nothing to report
+            pass
+        elif reported < 5:
+            reported += 1
+            ctx.violation("corr:wrap:" + vlib.sha(s["line"])[:10],
+                          "neither the model of the %s process_data loop nor the model of the unpatched loop matches the code (impl=%s model=%s)" % (
+                              s["backend"], i[:100], m[:100]), rep, found_input=False)
+    return stats
 
 
 # ------------------------------------------------------------------------------------------------ tools (b)
@@ -668,20 +853,26 @@ def run(ctx):
     if not ok:
         ctx.violation("proof:C15", "proof obligations of C15 no longer check: " + " | ".join(problems)[:1500],
                       {"broken": problems, "theorems_file": "lean/Sqfs/Props/C15.lean"}, found_input=False)
+    okw, logw = ctx.lean_build(["Sqfs.Witness.C15"])
+    if not okw:
+        ctx.violation("proof:C15:witness", "Sqfs/Witness/C15.lean (theorems about the unpatched loops) no longer builds", {"log": logw[-2000:]}, found_input=False)
     fstats, fsamples, bufsz = fake_codec_part(ctx)
     ctx.log("fake codec: %d scenarios, %d disagreements" % (fstats["scenarios"], fstats["disagreements"]))
+    wstats = wrapper_part(ctx)
+    ctx.log("wrappers over fake libraries: %d call sequences, %d disagreements (%d behave like the unpatched loops)" % (
+        wstats["scenarios"], wstats["disagreements"], wstats["unpatched_behaviour"]))
     tstats, tsamples = tool_part(ctx, bufsz)
     ctx.log("tools: %d tar2sqfs runs, %d sqfs2tar runs" % (tstats["tar2sqfs_runs"], tstats["sqfs2tar_runs"]))
     ctx.cov.update({
-        "evaluations": fstats["scenarios"] + tstats["tar2sqfs_runs"] + tstats["sqfs2tar_runs"],
+        "evaluations": fstats["scenarios"] + wstats["scenarios"] + tstats["tar2sqfs_runs"] + tstats["sqfs2tar_runs"],
         "distinct_nontrivial": fstats["nontrivial"] + sum(v for k, v in tstats["by_class"].items() if k != "single"),
         "rule": "fake-codec scenarios: operation sequences on the real ostream_xfrm / chunking+reader scripts on the real istream_xfrm, at BUFSZ in "
                 "%s; non-trivial = more data than one buffer, or a truncated/garbage/damaged stream. Tool runs: tar2sqfs on generated "
                 "archives (one multi-file, others sized k*BUFSZ +-512 with incompressible/compressible bytes) wrapped by the reference "
                 "compressors in the listed variants; sqfs2tar -c X expanded by the reference decompressors; non-trivial = every variant other than the plain single stream" % sorted(fstats["by_bufsz"]),
-        "fake_codec": fstats, "tools": tstats,
+        "fake_codec": fstats, "backend_loops": wstats, "tools": tstats,
         "samples": fsamples + tsamples,
-        "disagreements_checked": fstats["disagreements"],
+        "disagreements_checked": fstats["disagreements"] + wstats["disagreements"],
         "bufsz": bufsz,
     })
     return ctx.finish(LEVEL, trusted_extra=[
@@ -709,6 +900,13 @@ def replay(ctx, path):
         bad = spec_verdict(s, impl[0])
         print("impl :", impl[0][:500]); print("model:", model[0][:500]); print("clauses violated:", bad)
         return 1 if bad or impl[0] != model[0] else 0
+    if "wrap_line" in rp:
+        ctx.lean_build(["sqfsmodel"])
+        exe = build_wrap_harness(ctx)
+        impl = run_lines(ctx, exe, [rp["wrap_line"]], timeout=300)
+        model = ctx.driver(["c15"], rp["wrap_line"] + "\n")
+        print("impl :", impl[0][:600]); print("model:", model[0][:600])
+        return 0 if same_trace(impl[0], model[0]) else 1
     if rp.get("tool") == "tar2sqfs" and rp.get("input_hex"):
         T = Tools(ctx)
         data = untok(rp["input_hex"])
